@@ -6,6 +6,7 @@ import copy
 
 def _clone(tr, n):
     c = copy.deepcopy(tr)
+    c['canary_of'] = c['id']
     c['id'] = 'canary-%d' % n
     return c
 
